@@ -295,12 +295,26 @@ func TestVerifDLEQ(t *testing.T) {
 				alts = append(alts, [2]any{"bitflip", lib.FlipBit(prm.DST, r.Intn(8*len(prm.DST)))},
 					[2]any{"truncated", lib.Clone(prm.DST[:len(prm.DST)-1])}, [2]any{"empty", []byte{}})
 			}
+			for _, w := range libraryLiterals("zk/dleq") {
+				alts = append(alts, [2]any{"library-literal", w})
+			}
 			for _, a := range alts {
 				d := a[1].([]byte)
 				if lib.Eq(d, prm.DST) {
 					continue
 				}
 				reject("dst", a[0].(string), dleq.Params{G: g, H: prm.H, DST: d}, st, p0, "")
+			}
+			// the context as the front part of a caller buffer with used capacity
+			// behind it: verification leaves the buffer alone and accepts
+			arena := cat(prm.DST, []byte{0xA5, 0x5A, 0xA5, 0x5A})
+			was := lib.Clone(arena)
+			okA, _ := dleqVerify(mon, "dst-with-spare-capacity", dleq.Params{G: g, H: prm.H, DST: arena[:len(prm.DST)]}, st, p0)
+			lib.Count("dleq:context-with-spare-capacity")
+			if !lib.Eq(arena, was) {
+				lib.Violation("C16:argument-modified:dleq.Verify", mon, withKV(base, "buffer_before", was, "buffer_after", lib.Clone(arena)))
+			} else if !okA {
+				lib.Violation("C16:honest-rejected:dleq.Verify:context-with-spare-capacity", mon, withKV(base))
 			}
 		}
 		// ---- altered proof components through the byte encoding
@@ -630,6 +644,61 @@ func TestVerifDL(t *testing.T) {
 				a = append(a, lib.FlipBit(b, r.Intn(8*len(b))), lib.Clone(b[:len(b)-1]), []byte{})
 			}
 			return
+		}
+		// contexts taken from the library's own literals (a default label for an
+		// empty context, a reserved tag): each of them is a different context
+		dict := libraryLiterals("zk/dl")
+		for _, w := range dict {
+			if !lib.Eq(w, oi) {
+				reject("otherInfo", "library-literal", G, kG, pr, uid, w, "")
+			}
+			if !lib.Eq(w, uid) {
+				reject("userID", "library-literal", G, kG, pr, w, oi, "")
+			}
+		}
+		if c.i%4 == 1 {
+			// ... and a proof made under such a literal does not verify under the
+			// empty context or under another literal
+			w := dict[c.i/4%len(dict)]
+			var pl dl.Proof
+			if pn := lib.Try("dl.Prove:literal-context", w, func() { pl = dl.Prove(g, G, kG, k, uid, w, r) }); pn == nil {
+				if ok, _ := verify("literal-context", G, kG, pl, uid, w); !ok {
+					lib.Violation("C16:honest-rejected:dl.Verify", mon, withKV(base, "otherInfo_used", w))
+				}
+				lib.Count("dl:literal-contexts")
+				reject("otherInfo", "literal-to-empty", G, kG, pl, uid, []byte{}, "")
+				reject("otherInfo", "literal-to-nil", G, kG, pl, uid, nil, "")
+				reject("otherInfo", "literal-to-other-literal", G, kG, pl, uid, dict[(c.i/4+1)%len(dict)], "")
+			}
+		}
+		// userID and otherInfo as neighbouring parts of one caller buffer with
+		// spare capacity behind each: proving and verifying leave the buffer as
+		// it was and agree with the calls on separate copies
+		{
+			arena := cat(oi, uid, []byte{0xA5, 0x5A, 0xA5, 0x5A})
+			oiA, uidA := arena[:len(oi)], arena[len(oi):len(oi)+len(uid)]
+			was := lib.Clone(arena)
+			var pa dl.Proof
+			if pn := lib.Try("dl.Prove:one-buffer", arena, func() { pa = dl.Prove(g, G, kG, k, uidA, oiA, r) }); pn != nil {
+				lib.Violation("C16:panic:dl.Prove:"+pn.Class(), mon, withKV(base, "layout", "otherInfo and userID adjacent in one buffer", "panic", pn.Value))
+			} else {
+				lib.Count("dl:contexts-in-one-buffer")
+				if !lib.Eq(arena, was) {
+					lib.Violation("C16:argument-modified:dl.Prove", mon, withKV(base, "buffer_before", was, "buffer_after", lib.Clone(arena)))
+					copy(arena, was)
+				}
+				if ok, _ := verify("one-buffer-proof/separate-copies", G, kG, pa, lib.Clone(uid), lib.Clone(oi)); !ok {
+					lib.Violation("C16:honest-rejected:dl.Verify:proof-made-from-adjacent-context-buffers", mon, withKV(base, "V", mustElt(pa.V), "R", mustScl(pa.R)))
+				}
+				okA, _ := verify("one-buffer", G, kG, pr, uidA, oiA)
+				if !lib.Eq(arena, was) {
+					lib.Violation("C16:argument-modified:dl.Verify", mon, withKV(base, "buffer_before", was, "buffer_after", lib.Clone(arena)))
+					copy(arena, was)
+				}
+				if !okA {
+					lib.Violation("C16:honest-rejected:dl.Verify:contexts-adjacent-in-one-buffer", mon, withKV(base))
+				}
+			}
 		}
 		an, aa := ctxAlts(uid)
 		for j := range aa {
